@@ -116,3 +116,17 @@ func getSetCommandOptions(clock clock.Clock, cmd []string, options SetOptions) (
 		return SetOptions{}, fmt.Errorf("unknown option %s for set command", strings.ToUpper(cmd[0]))
 	}
 }
+
+// scalarBulkString encodes a scalar value (string, integer or float) as a RESP bulk string,
+// so that values containing CR, LF or other special bytes are returned intact.
+// A nil value is encoded as a null bulk string. Values of any other type are rejected.
+func scalarBulkString(value interface{}) ([]byte, error) {
+	switch value.(type) {
+	case nil:
+		return []byte("$-1\r\n"), nil
+	case string, int, int64, float64:
+		s := fmt.Sprintf("%v", value)
+		return []byte(fmt.Sprintf("$%d\r\n%s\r\n", len(s), s)), nil
+	}
+	return nil, errors.New("value at key is not a string, integer or float")
+}
